@@ -18,7 +18,7 @@ RULE = ('Batches of generated molecules: 1-40 nodes; node keys contiguous / spar
         'repeated atom tuples; charge and mass present, absent or mixed per atom; pre/post section lines; '
         'meta define; molecules that went through node removal and merge_molecule; a few 10^4-atom molecules in the '
         'thorough tier. Non-trivial = (atom-id order differs from node order, or node keys are not 1..N) and >= 1 '
-        'interaction. distinct = distinct (keys, atomids, interactions) hashes. Also: interaction types whose list exists but is empty when written (read through the defaultdict, or emptied by removals); residue numbers 0 and negative; numeric parameters incl. zeros.')
+        'interaction. distinct = distinct (keys, atomids, interactions) hashes. Also: interaction types whose list exists but is empty when written (read through the defaultdict, or emptied by removals); residue numbers 0 and negative; numeric parameters incl. zeros; the same object written a second time after its atoms were renumbered / added / removed.')
 ASSUMPTIONS = ['tokens (names, types, parameters) contain no whitespace, ";" or newline',
                'line order inside a section, alignment, header and comment lines are not compared',
                'an atom with a mass but no charge cannot be expressed in the positional [ atoms ] format; '
@@ -136,7 +136,10 @@ def gen(rnd, big=False):
     empty = rnd.sample(sorted({i['type'] for i in inter}), 1) if inter and rnd.random() < 0.2 else []
     return {'atoms': atoms, 'inter': inter, 'nrexcl': rnd.randint(0, 3), 'moltype': rnd.choice(['mol_0', 'Protein_A', 'X']),
             'extra': extra, 'expect_error': bool(both), 'history': hist, 'touch': touch, 'empty': empty, 'hseed': rnd.randrange(10 ** 6),
-            'moltype_arg': rnd.random() < 0.5}
+            'moltype_arg': rnd.random() < 0.5,
+            # the same object written a second time after it changed (atoms renumbered, added, removed): the file states the molecule
+            # as it is when written
+            'rewrite': rnd.choice([None, None, 'renumber', 'add-node', 'remove-node', 'drop-atomid']) if not big else None}
 
 
 def build(case):
@@ -197,10 +200,49 @@ def expected_from_memory(mol):
     return srt, rows, sections
 
 
+def change(case, mol):
+    """Change the molecule that was just written, through the public graph interface."""
+    import random
+    r = random.Random(case['hseed'] + 1)
+    op = case['rewrite']
+    nodes = list(mol.nodes)
+    if op == 'renumber':
+        ids = list(range(1, len(nodes) + 1))
+        r.shuffle(ids)
+        for k, i in zip(nodes, ids):
+            mol.nodes[k]['atomid'] = i
+    elif op == 'drop-atomid':
+        for k in r.sample(nodes, r.randint(1, len(nodes))):
+            mol.nodes[k].pop('atomid', None)
+    elif op == 'remove-node' and len(nodes) > 2:
+        mol.remove_node(r.choice(nodes))
+    else:
+        new = max(k for k in nodes) + r.randint(1, 5)
+        attrs = dict(mol.nodes[r.choice(nodes)])
+        attrs.update({'atomname': 'NEW', 'charge_group': len(nodes) + 1})
+        if r.random() < 0.7:
+            attrs['atomid'] = r.choice([0, -1, 1, len(nodes) + 1])     # usually sorts before atoms already there
+        else:
+            attrs.pop('atomid', None)
+        mol.add_node(new, **attrs)
+        mol.add_interaction('bonds', (new, r.choice(nodes)), ['1', '0.3', '1000'])
+
+
 def check(case):
-    """-> (problem or None, nontrivial, features, hash)"""
-    from vermouth.gmx.itp import write_molecule_itp
+    """-> (problem or None, nontrivial, features)"""
     mol = build(case)
+    problem, nontrivial, feats = check_mol(case, mol)
+    if problem is None and case.get('rewrite') and 'mass_without_charge' not in feats and 'both_ifdef_ifndef' not in feats:
+        change(case, mol)
+        problem, nt2, f2 = check_mol(case, mol)
+        feats['second_write_after_' + case['rewrite']] = 1
+        if problem and not ('mass_without_charge' in f2 or 'both_ifdef_ifndef' in f2):
+            problem = ('rewrite/' + problem[0], dict(problem[1], after=case['rewrite']))
+    return problem, nontrivial, feats
+
+
+def check_mol(case, mol):
+    from vermouth.gmx.itp import write_molecule_itp
     srt, rows, sections = expected_from_memory(mol)
     ex = case['extra']
     buf = io.StringIO()
